@@ -262,6 +262,8 @@ def parse_primary(p, no_struct):
             p.next()
             els = [("expr", parse_primary(p, no_struct), False)] if p.at("if") else parse_block(p)
         return ("ifexpr", cond, then, els)
+    if v == "{":   # block expression: `let x = { …; tail }`
+        return ("blockexpr", parse_block(p))
     if v == "[":
         p.next()
         items = []
@@ -395,6 +397,34 @@ def parse_pattern(p):
 # ---------------------------------------------------------------------------------------------
 
 LOG_MACROS = {"warn", "info", "debug", "trace", "error"}
+
+# A log statement is dropped from the translation.  That is only sound when its arguments are plain values:
+# `log` evaluates them whenever a logger is enabled, so a call, an index, arithmetic or a nested macro in there
+# is code that runs (and can panic or change state) in a logging application.  Accessor calls without arguments
+# from this list are accepted; anything else makes the translator refuse the function.
+PURE_LOG_ACCESSORS = {"id", "width", "height", "address", "len", "state", "sign_type"}
+
+
+def check_log_macro(name, toks, where="source"):
+    """toks: the (kind, text) tokens between the macro's parentheses"""
+    i, n = 0, len(toks)
+    while i < n:
+        k, v = toks[i]
+        if k in ("str", "num", "chr") or v in (",", ".", "&", "::", "self", "*"):
+            i += 1
+            continue
+        if k == "id":
+            if i + 1 < n and toks[i + 1][1] == "(":
+                if v in PURE_LOG_ACCESSORS and i + 2 < n and toks[i + 2][1] == ")" and i > 0 and toks[i - 1][1] == ".":
+                    i += 3
+                    continue
+                raise TranslateError("%s: %s! evaluates the call `%s(…)` in its arguments (runs whenever a logger is enabled)" % (where, name, v))
+            if i + 1 < n and toks[i + 1][1] == "!":
+                raise TranslateError("%s: %s! has a nested macro `%s!` in its arguments" % (where, name, v))
+            i += 1
+            continue
+        raise TranslateError("%s: %s! argument is not a plain value (token %r)" % (where, name, v))
+    return True
 
 
 def parse_block(p):
@@ -937,6 +967,7 @@ class Translator:
             e, semi = s[1], s[2]
             if e[0] == "macro":
                 if e[1] in LOG_MACROS:
+                    check_log_macro(e[1], e[2], "sign.rs")
                     return self.tr(rest, env, ctx)
                 raise TranslateError("sign.rs: unsupported macro %s!" % e[1])
             if not semi and not rest:
